@@ -423,6 +423,23 @@ pub fn cases(ctx: &Ctx) -> Vec<Case> {
         ];
         v.push(Case { prog: p, sel: AltSel::List(far), seg: (0, 1) });
     }
+    // "unaltered archives always open": every position of the stream end, of the footer start, of the
+    // end-of-file block and of a content header from 4 bytes before to 19 bytes after a chunk edge (the
+    // reader finds the footer by seeking from the end: 4 and 8 bytes read there may straddle two chunks)
+    {
+        let mut edges = Vec::new();
+        for dd in [-3i64, 0, 3, 6, 9, 12, 15, 18] {
+            edges.push(Sz::new(0, 1, dd));
+        }
+        for dd in [-3i64, 0, 3] {
+            edges.push(Sz::new(0, 2, dd));
+        }
+        for layers in [1u8, 3] {
+            for p in crate::gen::edge_programs(&k, layers, 1, &edges, ctx.seed ^ 0x0E0E) {
+                v.push(Case { prog: p, sel: AltSel::List(vec![Alt::None]), seg: (0, 1) });
+            }
+        }
+    }
     let mut sizes = crate::gen::small_sizes();
     sizes.extend([Sz::new(0, 1, -17), Sz::new(0, 1, 0), Sz::new(0, 2, 3)]);
     if !k.is_prod() {
